@@ -727,3 +727,6 @@ class SQLiteStateBackend(BaseStateBackend[Params, Result]):
         init_tables(self.sqlite_db_path, self.tables)
         # a context still cached would never be stored again in the emptied table
         self._runner_context_cache.clear()
+        # the app registration is not application data: keep it discoverable, as the
+        # in-memory backend does
+        self.store_app_info(AppInfo.from_app(self.app))
